@@ -107,6 +107,7 @@ struct TtxWorldBase {
   std::vector<vbi_sliced> frame;
   int frame_max = 4;
   std::vector<std::pair<int, int>> events;  // (pgno, subno)
+  vbi_network last_net;                     // payload of the last VBI_EVENT_NETWORK
   static TtxWorldBase* g;
 
   static void handler(vbi_event* ev, void*) {
@@ -117,6 +118,7 @@ struct TtxWorldBase {
       g->on_event(ev->ev.ttx_page.pgno, ev->ev.ttx_page.subno);
     } else if (ev->type == VBI_EVENT_NETWORK) {
       g->ctx->log("event network");
+      g->last_net = ev->ev.network;
       g->on_network();
     }
   }
@@ -255,6 +257,13 @@ struct C02 : World, TtxWorldBase {
       o.a = {pg, sub, (int64_t)r.below(8), r.chance(1, 3) ? 1 : 0, (int64_t)r.below(1u << 30), flags, (int64_t)r.below(7)};
       p.ops.push_back(o);
     }
+    // half of the stations identify themselves: 2-6 packets 8/30 format 1 with one CNI of the network table, sent by
+    // a ninth source (task 8) at scheduler-chosen points between the packets of the magazines
+    Rng rb(seed, "bsd");
+    if (rb.chance(1, 2)) {
+      p.knobs["station"] = 1 + (int64_t)rb.below(3);
+      for (int i = 2 + (int)rb.below(5); i > 0; i--) { Op b; b.task = 8; b.kind = "bsd"; b.a = {(int64_t)rb.below(40)}; p.ops.push_back(b); }
+    }
     return p;
   }
 
@@ -275,7 +284,15 @@ struct C02 : World, TtxWorldBase {
       if (!any_tainted) ctx->fail("oracle:ttx-event-spurious", "page event %x.%x but magazine %d transmits %x.%x", pgno, subno, m ? m : 8, o.pgno, o.subno);
     }
   }
-  void on_network() override { ctx->fail("oracle:ttx-network-change", "VBI_EVENT_NETWORK raised although one network with a consistent header is transmitting"); }
+  // The station may identify itself (packet 8/30 format 1 with a CNI of the network table, op "bsd"): the decoder then
+  // announces the network ONCE - the first identification of the station that has been transmitting all the time is no
+  // network change, every page received before it stays what it was.  Any other NETWORK event is a change nobody made.
+  int station_cni = 0, net_events = 0;
+  void on_network() override {
+    net_events++;
+    if (station_cni && net_events == 1 && last_net.cni_8301 == station_cni && last_net.nuid != 0) { ctx->count("station_identified"); return; }
+    ctx->fail("oracle:ttx-network-change", "VBI_EVENT_NETWORK (nuid %u, 8/30-1 CNI %x, #%d) raised although one network with a consistent header is transmitting", last_net.nuid, last_net.cni_8301, net_events);
+  }
 
   static int subkey(int subno) { return subno & 0xFF; }
 
@@ -412,6 +429,8 @@ struct C02 : World, TtxWorldBase {
     x26_sent = l15_pages = l15_pages_enh = l15_pages_uncheckable = l15_cells_checked = l15_cells_unpredicted = l15_cells_ignored_triplet = l15_rows_skipped = 0;
     frame_max = (int)(plan.knob("frame_max", 4) % 17); if (frame_max < 1) frame_max = 1;
     bool serial = plan.knob("serial") & 1;
+    static const int kCni8301[4] = {0, 0x4301, 0x4302, 0x430C};   // ORF eins, ORF 2, ATV (network-table.h)
+    station_cni = kCni8301[llabs(plan.knob("station", 0)) % 4]; net_events = 0;
     Sched sched(c, (uint64_t)plan.knob("sched_seed", (int64_t)plan.seed), (Policy)(plan.knob("policy") % 3), (int)plan.knob("pparam"));
     open_decoder();
     std::vector<std::vector<const Op*>> per(8);
@@ -427,6 +446,30 @@ struct C02 : World, TtxWorldBase {
       c.log("tx mag %d Y %d", m ? m : 8, pk.y);
       push(pk.b);
     };
+    {
+      std::vector<const Op*> bsd;
+      for (auto& op : plan.ops) if (op.kind == "bsd") bsd.push_back(&op);
+      if (station_cni && !bsd.empty()) sched.spawn("bsd", [&, bsd] {
+        for (const Op* op : bsd) {
+          for (int y = (int)(llabs(op->arg(0)) % 40); y > 0 && !c.failed; y--) sched.yield();
+          if (c.failed) return;
+          // packet 8/30 format 1 (EN 300 706 9.8.1): designation 0, initial page 100/3F7F, NI msb first, time offset 0,
+          // MJD 50000 and UTC 00:00:00 (every digit + 1), status display
+          ttx::Packet pk; memset(&pk, 0, sizeof pk); ttx::mrag(pk, 8, 30);
+          static const unsigned ip[7] = {0, 0, 0, 0xF, 7 | 8, 0xF, 3};
+          for (int i = 0; i < 7; i++) pk.b[2 + i] = tx::ham84(ip[i]);
+          pk.b[9] = tx::rev8((uint8_t)(station_cni >> 8)); pk.b[10] = tx::rev8((uint8_t)station_cni);
+          pk.b[11] = 0x81; pk.b[12] = 6; pk.b[13] = 0x11; pk.b[14] = 0x11; pk.b[15] = pk.b[16] = pk.b[17] = 0x11;
+          pk.b[18] = pk.b[19] = pk.b[20] = pk.b[21] = 0x15;
+          static const char status[21] = "ZSIM TEXT   STATION ";
+          for (int i = 0; i < 20; i++) pk.b[22 + i] = tx::odd_parity((uint8_t)status[i]);
+          c.log("tx 8/30 format 1 CNI %x", station_cni);
+          c.count("bsd_packets");
+          push(pk.b);
+          sched.yield();
+        }
+      });
+    }
     for (int m = 0; m < 8; m++) {
       if (per[(size_t)m].empty()) continue;
       sched.spawn("mag" + std::to_string(m), [&, m] {
